@@ -1,9 +1,11 @@
 #!/bin/sh
 # usage: process_seed.sh <Cxx> <k>   confirm the sub-agent's change k for property Cxx, file it under /verif/seeded, try all checks
-P="$1"; K="$2"; WT=/tmp/wt-$P
-D=/verif/seeded/$P-$K
+P="$1"; K="$2"; WT=${WTBASE:-/tmp/wt}-$P
+# KOFF: offset added to the change number for the directory name (second round of changes: KOFF=2)
+N=$((K+${KOFF:-0}))
+D=/verif/seeded/$P-$N
 [ -f "$WT/_seed/change$K.diff" ] || { echo "no change$K.diff in $WT/_seed"; exit 1; }
-echo "### $P-$K confirm"
+echo "### $P-$N confirm"
 RES=$(/verif/tools/confirm_seed.sh "$WT" "$K")
 echo "$RES"
 mkdir -p "$D"
@@ -12,6 +14,6 @@ rm -rf "$D/demo"; cp -r "$WT/_seed/demo$K" "$D/demo"
 [ -d "$WT/_seed/common" ] && { rm -rf "$D/common"; cp -r "$WT/_seed/common" "$D/common"; }
 cp "$WT/_seed/meta$K.json" "$D/agent_meta.json" 2>/dev/null
 echo "$RES" > "$D/confirmation.txt"
-echo "### $P-$K try all quick checks"
+echo "### $P-$N try all quick checks"
 TRY_REPO=/tmp/repo-try$LANE TRY_VERIF=/tmp/verif-snap$LANE TRY_OUT="$D/try_quick.json" python3 /tmp/verif-snap$LANE/tools/try_seed.py "$D/patch.diff" > "$D/try_quick.txt" 2>&1
 tail -1 "$D/try_quick.txt"
